@@ -2621,4 +2621,58 @@ theorem run_refines (env : Env) : ∀ (ops : List Op) (s : St), Inv s →
     rw [hs.2.1] at ih
     exact ⟨ih.1, ih.2.1, by rw [ih.2.2, hs.2.2]⟩
 
+/-- states the real responders / dispatchers can be in -/
+def Reachable (env : Env) (s : St) : Prop := ∃ ops : List Op, s = (run env St.init ops).1
+
+theorem reachable_inv {env : Env} {s : St} (h : Reachable env s) : Inv s := by
+  obtain ⟨ops, rfl⟩ := h
+  exact (run_refines env ops St.init inv_init).1
+
+theorem mem_filterMap_pairAbs {s : St} {k : DispKind} (hd : DInv s k) (q : Nat × AResp) :
+    q ∈ (s.disp k).wrapped.filterMap (pairAbs s) ↔
+      ∃ r, lookupResp s q.1 = some r ∧ r.enabled = true ∧ r.disp = k ∧ q.2 = absResp r := by
+  rw [List.mem_filterMap]
+  constructor
+  · rintro ⟨p, hp, hq⟩
+    obtain ⟨r, mid, h1, h2, h3, _⟩ := hd.wr p hp
+    simp only [pairAbs, h1, Option.map_some, Option.some.injEq] at hq
+    subst hq
+    exact ⟨r, h1, h2, h3, rfl⟩
+  · rintro ⟨r, h1, h2, h3, h4⟩
+    obtain ⟨p, hp, hpe⟩ := List.mem_map.mp (hd.en q.1 r h1 h2 h3)
+    refine ⟨p, hp, ?_⟩
+    simp only [pairAbs, hpe, h1, Option.map_some, Option.some.injEq]
+    rw [← h4]
+
+theorem nodup_filterMap_pairAbs {s : St} {k : DispKind} (hd : DInv s k) :
+    (((s.disp k).wrapped.filterMap (pairAbs s)).map (·.1)).Nodup := by
+  have : ∀ (W : List (Nat × Entry)), (W.map (·.1)).Nodup → ((W.filterMap (pairAbs s)).map (·.1)).Nodup := by
+    intro W
+    induction W with
+    | nil => intro _; simp
+    | cons p W ih =>
+      intro hn
+      simp only [List.map_cons, List.nodup_cons] at hn
+      simp only [List.filterMap_cons]
+      cases hp : pairAbs s p with
+      | none => exact ih hn.2
+      | some q =>
+        simp only [List.map_cons, List.nodup_cons]
+        refine ⟨?_, ih hn.2⟩
+        intro hm
+        obtain ⟨q', hq', he⟩ := List.mem_map.mp hm
+        obtain ⟨p', hp', hpq⟩ := List.mem_filterMap.mp hq'
+        have e1 : q.1 = p.1 := by
+          simp only [pairAbs] at hp
+          cases hl : lookupResp s p.1 with
+          | none => simp [hl] at hp
+          | some r => simp [hl] at hp; rw [← hp]
+        have e2 : q'.1 = p'.1 := by
+          simp only [pairAbs] at hpq
+          cases hl : lookupResp s p'.1 with
+          | none => simp [hl] at hpq
+          | some r => simp [hl] at hpq; rw [← hpq]
+        exact hn.1 (by rw [← e1, ← he, e2]; exact List.mem_map_of_mem hp')
+  exact this _ hd.wrRids
+
 end Sc3Verif.C18
